@@ -24,8 +24,11 @@ type Point struct{ X, Y *big.Int }
 
 func (p Point) Inf() bool { return p.X.Sign() == 0 || p.Y.Sign() == 0 }
 func (p Point) coq() string {
-	return "(" + p.X.String() + ", " + p.Y.String() + ")"
+	return "(" + Hex(p.X) + ", " + Hex(p.Y) + ")"
 }
+
+// Hex renders a non-negative integer as a Coq hexadecimal literal (much cheaper to parse than decimal).
+func Hex(v *big.Int) string { return "0x" + v.Text(16) }
 
 // SerP is the BIP's serP: 0x02/0x03 by parity of y, then the 32-byte big-endian x.
 func SerP(p Point) []byte {
@@ -85,7 +88,7 @@ func (o *Oracle) Mul(k *big.Int) Point {
 	x, y := bchec.S256().ScalarBaseMult(k.Bytes())
 	p := Point{x, y}
 	if o != nil {
-		o.add(&o.mulE, "("+k.String()+", "+p.coq()+")")
+		o.add(&o.mulE, "("+Hex(k)+", "+p.coq()+")")
 	}
 	return p
 }
